@@ -410,6 +410,12 @@ func c19Misc(r *fw.Rec, rr *prng.R) {
 	default:
 		// $now / $millis: one instant per evaluation, inside the wall-clock bracket
 		prog := `[$millis(), $toMillis($now()), $millis(), ($x := $sum([1..2000]); $millis()), $toMillis($now("[Y0001]-[M01]-[D01]T[H01]:[m01]:[s01].[f001][Z01:01]", "+0530"), "[Y0001]-[M01]-[D01]T[H01]:[m01]:[s01].[f001][Z01:01]")]`
+		if rr.Intn(25) == 0 {
+			// the clock is only read in inner scopes (blocks, function bodies,
+			// callbacks, path steps), with work in between: still one instant
+			prog = `[($a := $millis(); $a), ($sum([1..120000]); $millis()), function(){$toMillis($now())}(), $map([1, 2], function($v){($sum([1..60000]); $millis())})[1], {"k": ($millis())}.k, [1].($sum([1..60000]); $toMillis($now()))]`
+		}
+		want := strings.Count(prog, "$millis()") + strings.Count(prog, "$now(")
 		r.Begin(prog, "")
 		r.Tag("now-millis")
 		r.Nontrivial(fmt.Sprint("now", rr.U64()))
@@ -423,7 +429,7 @@ func c19Misc(r *fw.Rec, rr *prng.R) {
 		t1 := time.Now().UnixMilli()
 		r.Outcome(o.Class())
 		arr, _ := obs.Normalize(o.Val, nil).([]interface{})
-		if o.Kind != "value" || len(arr) != 5 {
+		if o.Kind != "value" || len(arr) != want {
 			r.Violation("now-failed", "got "+o.String(), nil)
 			return
 		}
